@@ -115,7 +115,7 @@ func init() {
 		Cases: func(master uint64, tier string) []Case {
 			n := 24
 			if tier == "thorough" {
-				n = 500
+				n = 5000
 			}
 			return seqCases(master, n, func(int) int { return WindowVariants })
 		},
